@@ -64,7 +64,7 @@ def _pa(prog: Program, f: Func) -> PathAnalysis:
     return _PA[k]
 
 
-LATER_RULES = ' Later rules: evaluator membership by primitives, not by name; (R15.8) no memo keyed by evaluated values; (R15.9) no evaluated set reaches a call that can see its order. (R15.10) a false comprehension condition kills the whole comprehension, and only when nothing with an effect or of unknown value is evaluated before it. (R15.11) dead code is removed only after it was searched for yield. (R15.12) every primitive application of the evaluator is fenced by a cost predicate over its operands. (R15.13) evaluated values are never remembered beyond the evaluation (single-use iterators, mutable containers). (R15.14) the calls exempt from the set-order fence are order-blind by a reference table. R15.9 (later form): the set test looks inside containers, and binary operations are fenced too. R15.4 (later form): the handler of the signal yields no rewrite at all, effect-free or not.'
+LATER_RULES = ' Later rules: evaluator membership by primitives, not by name; (R15.8) no memo keyed by evaluated values; (R15.9) no evaluated set reaches a call that can see its order. (R15.10) a false comprehension condition kills the whole comprehension, and only when nothing with an effect or of unknown value is evaluated before it. (R15.11) dead code is removed only after it was searched for yield. (R15.12) every primitive application of the evaluator is fenced by a cost predicate over its operands. (R15.13) evaluated values are never remembered beyond the evaluation (single-use iterators, mutable containers). (R15.14) the calls exempt from the set-order fence are order-blind by a reference table. (R15.15) the operator applied to evaluated values is the operator of the node, never one taken from the negation table. R15.9 (later form): the set test looks inside containers, and binary operations are fenced too. R15.4 (later form): the handler of the signal yields no rewrite at all, effect-free or not.'
 
 
 def check(prog: Program, tier: str) -> Result:
@@ -99,12 +99,13 @@ def check(prog: Program, tier: str) -> Result:
     _r15_8(prog, res, ev)
     _r15_9(prog, res, ev)
     _r15_14(prog, res, ev)
+    _r15_15(prog, res)
     _r15_13(prog, res, ev)
     _r15_10(prog, res, ev)
     _r15_11(prog, res, ev)
     _r15_12(prog, res, ev)
     _r15_7(prog, res, ev)
-    res.floors.update({"R15.1": 23, "R15.2": 18, "R15.3": 2, "R15.4": 10, "R15.5": 2, "R15.6": 2, "R15.9": 2, "R15.10": 5, "R15.11": 8, "R15.12": 3, "R15.13": 2, "R15.14": 1})
+    res.floors.update({"R15.1": 23, "R15.2": 18, "R15.3": 2, "R15.4": 10, "R15.5": 2, "R15.6": 2, "R15.9": 2, "R15.10": 5, "R15.11": 8, "R15.12": 3, "R15.13": 2, "R15.14": 1, "R15.15": 2})
     res.analysed.update({"evaluator_functions": [f.fq for f in ev.members], "external_call_sites": len(ev.call_sites())})
     return res
 
@@ -415,6 +416,34 @@ def _r15_9(prog: Program, res: Result, ev: Evaluator) -> None:
                    "hash seed of the formatter's process, not of the program - `list({'spam', 'eggs', 'ham'}) == [..]` folds to True or False from run to run")
     if n == 0:
         raise AnalysisError("R15.9: no builtin / method primitive found")
+
+
+# ------------------------------------------------------------------------------------------------ R15.15
+def _r15_15(prog: Program, res: Result) -> None:
+    """`a >= b` is not `not (a < b)`: for partially ordered values (sets that are not subsets of each other, NaN) both are False.
+    The negation table (REVERSE_OPERATOR_MAPPING) is a table about SYNTAX that holds for the tests pyrefact swaps
+    (`if not a < b` / `if a >= b` is decided under C17 for the operand kinds that occur there); it must never choose the operator
+    that is APPLIED to evaluated values.  Instance: every application of the operator table `COMPARISON_OPERATORS[type(op)](l, r)`;
+    obligation: `op` is the operator of the node, not one looked up in the negation table."""
+    n = 0
+    for fn in prog.funcs.values():
+        for c in walk_own(fn.node):
+            if not (isinstance(c, ast.Call) and isinstance(c.func, ast.Subscript) and "COMPARISON_OPERATORS" in norm(c.func.value)):
+                continue
+            n += 1
+            idx = c.func.slice
+            names = [x.id for x in ast.walk(idx) if isinstance(x, ast.Name)]
+            through_negation = "REVERSE_OPERATOR_MAPPING" in norm(idx)
+            for nm in names:
+                for _s, v in bindings(fn).get(nm, []):
+                    if v is not None and "REVERSE_OPERATOR_MAPPING" in norm(v):
+                        through_negation = True
+            res.decide(not through_negation, "R15.15", fn.loc(c), fn.fq, f"{short(c, 70)} # operator applied to evaluated values",
+                       "the operator of the node" if not through_negation else
+                       "the applied operator comes out of the NEGATION table (`>=` computed as `not <`): wrong for partially ordered values - `{1} >= {2}` is False and "
+                       "`not ({1} < {2})` is True, likewise with NaN")
+    if n == 0:
+        raise AnalysisError("R15.15: no application of the operator table found")
 
 
 # ------------------------------------------------------------------------------------------------ R15.14
